@@ -175,3 +175,43 @@ def gcv_float(y, w, llas):
         wsse = float(np.sum(w * (y - z) ** 2))
         scores.append(wsse / (w.sum() * (1 - trh / w.sum()) ** 2))
     return scores
+
+
+def gcv_robust_candidates(y, w, llas):
+    """The GCV scores that decide the lambda reported in robust mode, re-computed independently with dense solves: the best score of the
+    first scan (unit weights on valid cells) and every score of the second scan (after one bisquare reweighting from the residuals of
+    the weighted cells, kept only when the MAD is above rounding noise and two valid cells keep weight).  Used only to recognise ties."""
+    n = len(y)
+    nv = float(w.sum())
+    de = -2 + 2 * np.cos(np.arange(n) * np.pi / n)
+    de[0] = 1e-15
+    rw = np.ones(n)
+    best, zbest, cand = (1e15, 0.0), np.zeros(n), []
+    for it in range(2):
+        wt = w * rw
+        for l in llas:
+            s = 10.0 ** l
+            if np.count_nonzero(wt) < 2:
+                return None
+            z = ws2d_dense(y, wt, s)
+            trh = float((wt / (wt + s * de ** 2)).sum())
+            sc = float(np.sum(wt * (y - z) ** 2)) / (wt.sum() * (1 - trh / wt.sum()) ** 2)
+            if it == 1:
+                cand.append((sc, s))
+            if sc < best[0]:
+                best, zbest = (sc, s), z
+        if it == 0:
+            cand.append(best)
+            s = best[1]
+            r = y - zbest
+            sel = r[wt != 0]
+            mad = float(np.median(np.abs(sel - np.median(sel))))
+            if mad > 1e-9 * max(1.0, float(np.max(np.abs(y)))):
+                h = float((wt / (wt + s * de ** 2)).sum()) / nv
+                u = r / (1.4826 * mad * math.sqrt(max(1e-300, 1 - h)))
+                new = (1 - (u / 4.685) ** 2) ** 2
+                new[np.abs(u / 4.685) > 1] = 0
+                new[r > 0] = 1
+                if np.count_nonzero(w * new) >= 2:
+                    rw = new
+    return cand
